@@ -8,6 +8,11 @@
 (* kinds: "row" (any ordinary package), "doneF" (DONE, status FINAL), "doneM" (DONE with other    *)
 (* bits), "info" (EED with the info bit), "eed" (EED), "env" (ENVCHANGE).                         *)
 (* delivered entries: package index; 0 = the synthetic final DONE; -1 = a desynchronised parse.   *)
+(* Kind "bad" is a package whose parser fails with an error other than not-enough-bytes (malformed   *)
+(* input): tryParsePackage queues the error into the channel's bounded error queue (capacity ErrCap) *)
+(* and WritePacket rolls the position back, so the same bytes are parsed again with every later       *)
+(* packet; when the error queue is full the reader goroutine blocks ("wedged").  Kept out of the       *)
+(* judged shapes; MC_RxPath_Wedge.cfg shows the wedge as a counterexample (spec growth, DESIGN.md).   *)
 EXTENDS PQOps, FiniteSets, TLC, SequencesExt, Json
 
 CONSTANTS MaxBody,     \* largest packet body the peer uses
@@ -15,8 +20,9 @@ CONSTANTS MaxBody,     \* largest packet body the peer uses
           Rounds,      \* number of request/response rounds
           GEN
 
-VARIABLES resp, round, sent, q, lastRx, delivered, hooks, phase, hist
-vars == <<resp, round, sent, q, lastRx, delivered, hooks, phase, hist>>
+VARIABLES resp, round, sent, q, lastRx, delivered, hooks, phase, hist, errs
+vars == <<resp, round, sent, q, lastRx, delivered, hooks, phase, hist, errs>>
+ErrCap == 2
 
 Total(r) == FoldSeq(LAMBDA p, a : a + p.n, 0, r)
 RECURSIVE PkgAt(_, _, _)
@@ -40,6 +46,10 @@ Loop(s) ==
   ELSE
       LET w == Where(t.bs[1]) pk == resp[w[1]] IN
       IF w[2] # 1 THEN [s EXCEPT !.del = Append(s.del, (0-1))]        \* token read in mid-package
+      ELSE IF pk.k = "bad" THEN                                       \* parse error: queue it, roll back (or reset at EOM)
+          LET b0 == PQ_Bytes(t.q, pk.n - 1) IN
+          IF PQ_IsEOM(b0.q) THEN [s EXCEPT !.q = PQ_Empty, !.er = s.er + 1]
+          ELSE [s EXCEPT !.q = PQ_SetPos(t.q, saved[1], saved[2]), !.er = s.er + 1]
       ELSE LET b == PQ_Bytes(t.q, pk.n - 1) IN
         IF b.st = "need" THEN
             IF PQ_IsEOM(b.q) THEN [s EXCEPT !.q = PQ_Empty]
@@ -54,16 +64,18 @@ Loop(s) ==
 H(e) == hist' = IF GEN THEN Append(hist, e) ELSE hist
 
 Init == /\ resp \in Shapes /\ round = 1 /\ sent = 0 /\ q = PQ_Empty /\ lastRx = "none"
-        /\ delivered = <<>> /\ hooks = <<>> /\ phase = "recv" /\ hist = <<>>
+        /\ delivered = <<>> /\ hooks = <<>> /\ phase = "recv" /\ hist = <<>> /\ errs = 0
 
 \* the peer sends the next n bytes of the response as one packet (EOM on the last one)
 Send(n) ==
   /\ phase = "recv" /\ sent < Total(resp) /\ n \in 1..MaxBody /\ sent + n <= Total(resp)
+  /\ errs <= ErrCap                                   \* a wedged reader takes no more packets
   /\ LET eom == (sent + n = Total(resp))
          pkt == [i \in 1..n |-> sent + i]
-         s0 == [q |-> PQ_Add(q, pkt, eom), last |-> lastRx, del |-> delivered, hk |-> hooks]
+         s0 == [q |-> PQ_Add(q, pkt, eom), last |-> lastRx, del |-> delivered, hk |-> hooks, er |-> errs]
          s1 == Loop(s0)
      IN /\ q' = s1.q /\ lastRx' = s1.last /\ delivered' = s1.del /\ hooks' = s1.hk
+        /\ errs' = s1.er
         /\ sent' = sent + n
         /\ phase' = IF eom THEN "eom" ELSE "recv"
         /\ H([op |-> "Send", n |-> n, resp |-> resp, del |-> s1.del])
@@ -74,7 +86,7 @@ NextRound ==
   /\ \E r \in Shapes : resp' = r
   /\ round' = round + 1 /\ sent' = 0 /\ delivered' = <<>> /\ hooks' = <<>> /\ phase' = "recv"
   /\ H([op |-> "Round", n |-> 0, resp |-> resp', del |-> <<>>])
-  /\ UNCHANGED <<q, lastRx>>
+  /\ UNCHANGED <<q, lastRx, errs>>
 
 Next == (\E n \in 1..MaxBody : Send(n)) \/ NextRound
 Spec == Init /\ [][Next]_vars
@@ -94,8 +106,10 @@ C03_AtEOM ==
 C03_NoCarryOver == phase = "eom" => q = PQ_Empty
 C11_HooksOnce == hooks = SelectSeq([i \in 1..Len(resp) |-> i], LAMBDA i : i \in Complete /\ resp[i].k = "eed")
 C11_NeverDelivered == \A i \in 1..Len(delivered) : delivered[i] > 0 => Passed(resp[delivered[i]].k)
+\* the reader never blocks on its own error queue (false for malformed input: see MC_RxPath_Wedge.cfg)
+NoWedge == errs <= ErrCap
 NoDesync == \A i \in 1..Len(delivered) : delivered[i] # (0-1)
 
 GenPrint == (GEN /\ phase = "eom" /\ round = Rounds) => PrintT(<<"SCN", ToJson(hist)>>)
-View == <<resp, round, sent, q, lastRx, delivered, hooks, phase>>
+View == <<resp, round, sent, q, lastRx, delivered, hooks, phase, errs>>
 =============================================================================
